@@ -18,23 +18,46 @@ open MT MT.Proto
 def isSpace (c : Char) : Bool :=
   c = ' ' || c = '\t' || c = '\n' || c = '\r' || c = '\x0b' || c = '\x0c'
 
-/-- whitespace-delimited tokens, as `operator>>` sees them -/
-def tokens (s : String) : List String :=
-  let rec go (cs : List Char) (cur : List Char) (acc : List String) : List String :=
-    match cs with
-    | [] => (if cur.isEmpty then acc else String.ofList cur.reverse :: acc).reverse
-    | c :: cs =>
-      if isSpace c then go cs [] (if cur.isEmpty then acc else String.ofList cur.reverse :: acc)
-      else go cs (c :: cur) acc
-  go s.toList [] []
+/-- whitespace-delimited tokens, as `operator>>` sees them (on characters) -/
+def tokensL : List Char → List (List Char)
+  | [] => []
+  | c :: cs =>
+    if isSpace c then tokensL cs
+    else match cs with
+      | [] => [[c]]
+      | d :: _ =>
+        if isSpace d then [c] :: tokensL cs
+        else match tokensL cs with
+          | t :: ts => (c :: t) :: ts
+          | [] => [[c]]
+
+def tokens (s : String) : List String := (tokensL s.toList).map String.ofList
+
+/-- pieces between line feeds -/
+def splitOnNL : List Char → List (List Char)
+  | [] => [[]]
+  | c :: cs =>
+    if c = '\n' then [] :: splitOnNL cs
+    else match splitOnNL cs with
+      | l :: ls => (c :: l) :: ls
+      | [] => [[c]]
+
+/-- `line.erase(line.find_last_not_of(" ") + 1)` -/
+def stripTrailingSpaces (l : List Char) : List Char := (l.reverse.dropWhile (· = ' ')).reverse
 
 /-- the pieces `std::getline` yields in a `while (!in.eof())` loop, empty ones dropped, trailing
-blanks erased (`line.erase(line.find_last_not_of(" ") + 1)`) -/
-def fileLines (content : String) : List String :=
-  ((content.splitOn "\n").filter (· ≠ "")).map fun l =>
-    String.ofList (l.toList.reverse.dropWhile (· = ' ')).reverse
+blanks erased -/
+def fileLinesL (content : List Char) : List (List Char) :=
+  ((splitOnNL content).filter (· ≠ [])).map stripTrailingSpaces
+
+def fileLines (content : String) : List String := (fileLinesL content.toList).map String.ofList
 
 def isNatTok (s : String) : Bool := !s.isEmpty && s.toList.all Char.isDigit
+
+/-- decimal naturals on characters -/
+def isNatL (l : List Char) : Bool := !l.isEmpty && l.all Char.isDigit
+
+def natOfL (l : List Char) : Nat := l.foldl (fun acc c => acc * 10 + (c.toNat - '0'.toNat)) 0
 
 /-- `[+-]?digits[.digits][e[+-]digits]` → nearest double (`Float.ofScientific`) -/
 def parseDecimal (s : String) : Option Float :=
@@ -76,21 +99,23 @@ structure Adj where
   starts : List Nat
   ends : List Nat
   weights : List Nat
-deriving Repr
+deriving Repr, DecidableEq
 
 /-- one line: two labels, then weights while they extract; a line on which the two labels
 cannot be extracted is skipped -/
-def adjLine (l : String) : Option (Nat × Nat × List Nat) :=
-  match tokens l with
+def adjLineL (l : List Char) : Option (Nat × Nat × List Nat) :=
+  match tokensL l with
   | a :: b :: rest =>
-    if isNatTok a && isNatTok b then
-      some (a.toNat!, b.toNat!, (rest.takeWhile isNatTok).map String.toNat!)
+    if isNatL a && isNatL b then
+      some (natOfL a, natOfL b, (rest.takeWhile isNatL).map natOfL)
     else none
   | _ => none
 
-def parseAdjacency (content : String) : Adj :=
-  let rows := (fileLines content).filterMap adjLine
+def parseAdjacencyL (content : List Char) : Adj :=
+  let rows := (fileLinesL content).filterMap adjLineL
   { starts := rows.map (·.1), ends := rows.map (·.2.1), weights := rows.flatMap (·.2.2) }
+
+def parseAdjacency (content : String) : Adj := parseAdjacencyL content.toList
 
 /-! ### read_affinity_data (app_utils.cpp:37-121) -/
 
@@ -212,25 +237,33 @@ structure CallRecord where
   adj : Adj
   affinity : Array Float
 
+/-- the initial affinity vector handed to the library: zeros, or the file's diagonal values -/
+def cliAffinity (o : Opts) (size : Nat) (affContent : Option String) : Except String (Array Float) :=
+  if o.affinity != "" then
+    match affContent with
+    | some c =>
+      match readAffinity o.assortative o.k size c with
+      | .ok w => .ok w
+      | .error _ => .error "affinity file rejected"
+    | none => .error "cannot open affinity file"
+  else .ok (Array.replicate size 0.0)
+
 def cliCall (o : Opts) (adjContent : String) (affContent : Option String) :
-    Except String CallRecord := do
+    Except String CallRecord :=
   let adj := parseAdjacency adjContent
-  if adj.starts.length = 0 then throw "no records"   -- division by zero at multitensor.cpp:148
-  let nL := adj.weights.length / adj.starts.length
-  let size := if o.assortative then o.k * nL else o.k * o.k * nL
-  let wfile : Bool := o.affinity != ""
-  let aff ← match wfile, affContent with
-    | true, some c => match readAffinity o.assortative o.k size c with
-                      | .ok w => pure w
-                      | .error _ => throw "affinity file rejected"
-    | true, none => throw "cannot open affinity file"
-    | false, _ => pure (Array.replicate size 0.0)
-  let sel := Gen.cliSelection o.directed.toNat o.assortative.toNat wfile.toNat
-  match Gen.cliTable.lookup sel with
-  | none => throw "selection"
-  | some (inst, allocV) =>
-    pure { inst, allocV, K := o.k, r := o.r, maxit := o.maxit, nconv := o.y, seed := o.seed,
-           adj, affinity := aff }
+  if adj.starts.length = 0 then .error "no records"   -- division by zero at multitensor.cpp:148
+  else
+    let nL := adj.weights.length / adj.starts.length
+    let size := if o.assortative then o.k * nL else o.k * o.k * nL
+    match cliAffinity o size affContent with
+    | .error e => .error e
+    | .ok aff =>
+      match Gen.cliTable.lookup
+          (Gen.cliSelection o.directed.toNat o.assortative.toNat (o.affinity != "").toNat) with
+      | none => .error "selection"
+      | some (inst, allocV) =>
+        .ok { inst, allocV, K := o.k, r := o.r, maxit := o.maxit, nconv := o.y, seed := o.seed,
+              adj, affinity := aff }
 
 /-! ### writers (app_utils.hpp:137-235, app_utils.cpp:123-143) -/
 
